@@ -471,6 +471,36 @@ pub fn dump_sigs<'tcx>(cx: &mut Ctx<'tcx>) {
     }
 }
 
+/// associated / free constants with their initialiser expression
+pub fn dump_consts<'tcx>(cx: &mut Ctx<'tcx>) {
+    let tcx = cx.tcx;
+    for ldid in tcx.hir_crate_items(()).definitions() {
+        if !matches!(tcx.def_kind(ldid), DefKind::AssocConst { .. } | DefKind::Const { .. }) {
+            continue;
+        }
+        let Some(body) = tcx.hir_maybe_body_owned_by(ldid) else { continue };
+        let tr = tcx.typeck(ldid);
+        let h = H { tcx, tr };
+        let did = ldid.to_def_id();
+        let mut o = vec![
+            ("k", J::s("const")),
+            ("id", J::s(dp(tcx, did))),
+            ("name", J::s(pretty_plain(tcx, did))),
+            ("body", h.expr(body.value)),
+        ];
+        let parent = tcx.parent(did);
+        if let DefKind::Impl { of_trait } = tcx.def_kind(parent) {
+            let self_ty = tcx.type_of(parent).instantiate_identity().skip_norm_wip();
+            o.push(("impl_self", J::s(tystr(self_ty))));
+            if of_trait {
+                let trr = tcx.impl_trait_ref(parent).instantiate_identity().skip_norm_wip();
+                o.push(("impl_trait", J::s(pretty_plain(tcx, trr.def_id))));
+            }
+        }
+        cx.out.push(J::O(o).to_string());
+    }
+}
+
 pub fn dump_fn<'tcx>(cx: &mut Ctx<'tcx>, ldid: LocalDefId) {
     let tcx = cx.tcx;
     let Some(body) = tcx.hir_maybe_body_owned_by(ldid) else { return };
